@@ -166,3 +166,35 @@ class EncoderImpl:
                 p = f * float(v) * dt / 1000.0
                 out.append("near" if abs(p - 1.0) < 1e-4 else ("one" if p > 1.0 else "frac"))
         return out
+
+
+class _InhomShim:
+    """inferno.neural.functional.inhomogeneous_poisson_bernoulli_approx behind the interface of an encoder with ONE step:
+    the rates tensor S x ... is given whole, every (step, element) is an independent Bernoulli draw, and the result
+    S x ... is presented as a single step over S * ... elements."""
+
+    def __init__(self, dt: float, frequency: float, generator):
+        self.steps, self.dt, self.frequency, self.generator = 1, dt, frequency, generator
+
+    def __call__(self, x, online=False):
+        from inferno.neural.functional import inhomogeneous_poisson_bernoulli_approx as fn
+        rates = x * self.frequency                      # intensities in [0, 1+] -> rates in Hz, per step and element
+        out = fn(rates, self.dt, generator=self.generator)
+        if tuple(out.shape) != tuple(x.shape):
+            return out                                   # reported as a shape deviation by EncoderImpl.encode
+        if online:
+            return iter([out])
+        return out.unsqueeze(0)
+
+
+class InhomImpl(EncoderImpl):
+    """hdr: {kind: "bern", S: 1, D, M, tick, seed}; no setters (a function has no configuration to drift)."""
+
+    def __init__(self, hdr: dict, with_gen: bool = True):
+        self.hdr = dict(hdr)
+        self.kind = "bern"
+        self.tick = float(hdr["tick"])
+        self.with_gen = with_gen
+        self.gen = torch.Generator().manual_seed(int(hdr.get("seed", 0)))
+        self.gen_ids, self.gen_states, self.inputs, self.broken = {}, {}, [], False
+        self.enc = _InhomShim(hdr["D"] * self.tick, self.freq_of(hdr["M"]), self.gen)
